@@ -98,7 +98,7 @@ class TelnetTransport(Transport):
             ScrapliConnectionNotOpened: if connection is not opened for some reason
 
         """
-        if not self.socket:
+        if self.socket is None:
             raise ScrapliConnectionNotOpened
 
         if not control_buf:
@@ -147,7 +147,7 @@ class TelnetTransport(Transport):
             ScrapliConnectionNotOpened: if connection is not opened for some reason
 
         """
-        if not self.socket:
+        if self.socket is None:
             raise ScrapliConnectionNotOpened
 
         if not self._control_buf:
@@ -256,7 +256,9 @@ class TelnetTransport(Transport):
 
     @timeout_wrapper
     def read(self) -> bytes:
-        if not self.socket:
+        # note: "is None", not truthiness -- a Socket whose peer is gone is falsy (Socket.__bool__ is
+        # isalive()), but that is a lost connection (reported below / by _read), not one never opened
+        if self.socket is None:
             raise ScrapliConnectionNotOpened
 
         if self._eof and not self._cooked_buf:
